@@ -232,3 +232,50 @@ func asaPeerSpace() *space {
 	}
 	return sp
 }
+
+// asaWebvpnSpace: the toplevel webvpn block is added (or removed) in a run
+// that also edits sub-commands of a group-policy or a username, while the
+// certificate map and the tunnel-group it names exist on both sides - so
+// that nothing toplevel is emitted between the last attributes sub-command
+// and "webvpn", which is also a sub-command of those attributes modes.
+func asaWebvpnSpace() *space {
+	base := "crypto ca certificate map ca-map 10\n subject-name attr ea co @sub.example.com\n" +
+		"tunnel-group VPN-tunnel type remote-access\ntunnel-group VPN-tunnel general-attributes\n default-group-policy VPN-group\ntunnel-group-map ca-map 10 VPN-tunnel\n"
+	gp := func(name string, idle int) string {
+		return "group-policy " + name + " internal\ngroup-policy " + name + " attributes\n vpn-idle-timeout " + fmt.Sprint(idle) + "\n"
+	}
+	user := func(v int) string {
+		switch v {
+		case 0:
+			return ""
+		case 1:
+			return "username foo@bar nopassword\nusername foo@bar attributes\n vpn-group-policy gp2\n service-type remote-access\n"
+		}
+		return "username foo@bar nopassword\nusername foo@bar attributes\n vpn-group-policy gp2\n service-type remote-access\n vpn-idle-timeout 30\n"
+	}
+	webvpn := "webvpn\n certificate-group-map ca-map 10 VPN-tunnel\n"
+	text := func(idle1, idle2, u int, w bool) string {
+		t := base + gp("VPN-group", idle1) + gp("gp2", idle2) + user(u)
+		if w {
+			t += webvpn
+		}
+		return t
+	}
+	idles := []int{60, 120}
+	sp := &space{name: "vpn-webvpn", model: "ASA", n: 2 * 2 * 3 * 2 * 2 * 2 * 3 * 2}
+	sp.gen = func(i int64) (core.Files, core.Files) {
+		pick := func(n int64) int {
+			v := int(i % n)
+			i /= n
+			return v
+		}
+		d1, d2, du, dw := idles[pick(2)], idles[pick(2)], pick(3), pick(2) == 1
+		t1, t2, tu, tw := idles[pick(2)], idles[pick(2)], pick(3), pick(2) == 1
+		if du == 0 || tu == 0 {
+			// gp2 needs its user
+			du, tu = 1, 1
+		}
+		return core.Files{Main: asaIntf + text(d1, d2, du, dw)}, core.Files{Main: text(t1, t2, tu, tw)}
+	}
+	return sp
+}
